@@ -79,7 +79,9 @@ def header(size, ver=2, comp=b'INFO', wrap=254, hdr=(0x20, 0x01, 0x42)):
 
 
 HEADERS = [dict(), dict(ver=0, comp=b'TWELVECHARSX', wrap=0), dict(ver=255, comp=b'POWR    ', wrap=0xffffffff),
-           dict(comp=b'FANS\0\0\0\0    ', wrap=1)]
+           dict(comp=b'FANS\0\0\0\0    ', wrap=1),
+           # the three bytes after the version (header length, time flag, endian flag) are stored but not shown
+           dict(hdr=[0x40, 0x00, 0x4c]), dict(hdr=[0x00, 0xff, 0x00], comp=b'ERRL'), dict(hdr=[0xff, 0x01, 0x42], wrap=7)]
 
 
 def bounds(tier):
@@ -218,7 +220,7 @@ def build(case):
         size = total - 1
     else:
         size = ds
-    data = header(size, **{k: (bytes.fromhex(v) if k == 'comp' else v) for k, v in case.get('hdr', {}).items()}) + body
+    data = header(size, **{k: (bytes.fromhex(v) if k == 'comp' else tuple(v) if k == 'hdr' else v) for k, v in case.get('hdr', {}).items()}) + body
     if 'cut' in case:
         data = data[:case['cut']]
     return data
